@@ -48,6 +48,23 @@ func parseType(s string) *tref {
 type obj struct {
 	typ string
 	id  uint64
+	// also: further object types whose IsTypeOf accepts this value (overlapping IsTypeOf functions).
+	// The world only ever puts types here that are HIDDEN under the request's features, next to one
+	// main type: the value then has exactly one type the request can see, whatever the order in which
+	// the implementations are tried.
+	also []string
+}
+
+func (o *obj) isA(tn string) bool {
+	if o.typ == tn {
+		return true
+	}
+	for _, a := range o.also {
+		if a == tn {
+			return true
+		}
+	}
+	return false
 }
 
 type edgeVal struct {
@@ -63,11 +80,16 @@ type world struct {
 	orig    *Spec // expanded original spec
 	F       map[string]bool
 	respect bool // abstract fields only ever resolve to objects of types visible under F
+	// overlap: values returned through an interface field are also claimed (IsTypeOf) by every
+	// implementation of that interface that is hidden under F
+	overlap bool
 	// force, when set, makes every abstract field resolve to an object of exactly this type, every
 	// list have one item, and nothing be null or fail (used to observe type resolution)
 	force string
-	mu    sync.Mutex
-	log   []string
+	// forceAlso: with force, the further types whose IsTypeOf accepts the forced value
+	forceAlso []string
+	mu        sync.Mutex
+	log       []string
 }
 
 func h64(parts ...interface{}) uint64 {
@@ -113,6 +135,24 @@ func (w *world) candidates(name string) []string {
 			}
 		}
 		out = vis
+	}
+	return out
+}
+
+// hiddenImplementations: the implementations of interface `name` (in the original schema) that the
+// request cannot see.
+func (w *world) hiddenImplementations(name string, except string) []string {
+	var out []string
+	for _, o := range w.orig.Types {
+		if o.Kind != "object" || o.Name == except || subset(o.Req, w.F) {
+			continue
+		}
+		for _, i := range o.Ifaces {
+			if i == name {
+				out = append(out, o.Name)
+				break
+			}
+		}
 	}
 	return out
 }
@@ -176,13 +216,17 @@ func (w *world) value(t *tref, h uint64, nonNull bool) (interface{}, error) {
 		return &obj{typ: ts.Name, id: h >> 8}, nil
 	case "interface", "union":
 		if w.force != "" {
-			return &obj{typ: w.force, id: h >> 8}, nil
+			return &obj{typ: w.force, id: h >> 8, also: w.forceAlso}, nil
 		}
 		c := w.candidates(ts.Name)
 		if len(c) == 0 {
 			return nil, nil
 		}
-		return &obj{typ: c[int(h>>8)%len(c)], id: h >> 8}, nil
+		o := &obj{typ: c[int(h>>8)%len(c)], id: h >> 8}
+		if w.overlap && ts.Kind == "interface" {
+			o.also = w.hiddenImplementations(ts.Name, o.typ)
+		}
+		return o, nil
 	}
 	return nil, nil
 }
@@ -293,7 +337,7 @@ func buildDefinition(spec *Spec, w *world) (def *graphql.SchemaDefinition, named
 				tn := t.Name
 				named[t.Name] = &graphql.ObjectType{Name: t.Name, RequiredFeatures: reqSet(t.Req), IsTypeOf: func(v interface{}) bool {
 					o, ok := v.(*obj)
-					return ok && o.typ == tn
+					return ok && o.isA(tn)
 				}}
 			}
 		case "interface":
